@@ -83,6 +83,7 @@ func c11(c *Ctx) {
 	ck.A3(r, pairs)
 	// A4: the parsers against reference encodings transcribed from the standard (independent of the writer)
 	ck.A3(r, c11SpecPairs(c))
+	ck.A3(r, c11PacketSpecPairs(c))
 	var fs []*ssa.Function
 	for _, n := range []string{"parsePacket", "parsePacketHeader", "parsePacketAdaptationField", "parsePCR", "writePacket", "writePacketHeader", "writePacketAdaptationField", "writePacketAdaptationFieldExtension", "writePCR"} {
 		fs = append(fs, c.fn(n))
